@@ -262,6 +262,28 @@ func c09Options(name string, sample *Env, menv map[string]interface{}) []expr.Op
 	return nil
 }
 
+// scrambledEnv: deep structure in which an in-place library routine or an append is visible:
+// unsorted slices with spare capacity (sentinels in the tail), maps with several entries, shared
+// pointers.
+func scrambledEnv() *Env {
+	in := &Inner{X: 9, Y: "zz", Next: &Inner{X: -3, Y: "aa"}}
+	ai := make([]int, 5, 9)
+	copy(ai[:9], []int{3, 1, 2, -5, 1, 77, 78, 79, 80})
+	as := make([]string, 4, 7)
+	copy(as[:7], []string{"b", "a", "abc", "", "t1", "t2", "t3"})
+	aa := make([]interface{}, 4, 6)
+	copy(aa[:6], []interface{}{"x", 2, nil, 1.5, "tail", 99})
+	af := make([]float64, 2, 4)
+	copy(af[:4], []float64{1.5, 0.5, 7, 8})
+	e := &Env{
+		I: 2, I8: 5, I16: -7, I32: 11, I64: -13, U: 17, U8: 19, U16: 23, U32: 29, U64: 31, F32: 0.5, F64: -1.25, B: true, B2: true, S: "hello", S2: "x1",
+		AI: ai, AS: as, AA: aa, AF: af, MI: map[string]int{"b": 2, "a": 1, "hello": 5, "": 0}, MA: map[string]interface{}{"s": "v", "k": []int{2, 1}, "n": nil, "p": in},
+		St: Inner{X: 4, Y: "st", Next: in}, P: in, Any: []interface{}{3, "c", 1},
+	}
+	installFuncs(e)
+	return e
+}
+
 // a map environment with the members of the struct universe (logging functions included)
 func c09MapEnv(e *Env) map[string]interface{} {
 	return map[string]interface{}{
@@ -407,12 +429,12 @@ func runC09() {
 	}
 
 	// ---- (2) runs with snapshots; twins built from the same generator state
-	nEnvs := 4
+	nEnvs := 5
 	if *tier == "thorough" {
-		nEnvs = 7
+		nEnvs = 8
 	}
-	envsA := standardEnvs(rand.New(rand.NewSource(*seed+1)), nEnvs)
-	envsB := standardEnvs(rand.New(rand.NewSource(*seed+1)), nEnvs)
+	envsA := append([]*Env{scrambledEnv()}, standardEnvs(rand.New(rand.NewSource(*seed+1)), nEnvs-1)...)
+	envsB := append([]*Env{scrambledEnv()}, standardEnvs(rand.New(rand.NewSource(*seed+1)), nEnvs-1)...)
 	menvA, menvB := make([]map[string]interface{}, nEnvs), make([]map[string]interface{}, nEnvs)
 	snapA, snapMA := make([]string, nEnvs), make([]string, nEnvs)
 	for i := range envsA {
@@ -586,6 +608,6 @@ func runC09() {
 	for i := 0; i < 6 && i < len(cases); i++ {
 		rep.Samples = append(rep.Samples, cases[(i*7919+13)%len(cases)])
 	}
-	rep.Rule = "cases = (fixed sources covering every constant kind and every allocating opcode + a shuffled sample (quick) / all (thorough) of the exhaustive shape family + type-directed random expressions) x option sets {untyped, untyped+opt, typed, typed+opt on every source; AsInt64, AsBool, map environment, map environment + AllowUndefinedVariables, operator overloading + ConstExpr on a rotating third}; each compiled 5x in-process and once in each of 2 fresh processes (digest of Bytecode+Constants+Locations or the error text); every distinct program run on 4 (quick) / 7 (thorough) environments with deep structure, twice on the same value and once on an equal twin, with deep snapshots of environment, sample environment and program around every run; distinct_nontrivial = successfully compiled (source, option set) pairs + distinct (program, environment) pairs run"
+	rep.Rule = "cases = (fixed sources covering every constant kind and every allocating opcode + a shuffled sample (quick) / all (thorough) of the exhaustive shape family + type-directed random expressions) x option sets {untyped, untyped+opt, typed, typed+opt on every source; AsInt64, AsBool, map environment, map environment + AllowUndefinedVariables, operator overloading + ConstExpr on a rotating third}; each compiled 5x in-process and once in each of 2 fresh processes (digest of Bytecode+Constants+Locations or the error text); every distinct program run on 5 (quick) / 8 (thorough) environments with deep structure (one with unsorted slices that have spare capacity, multi-entry maps, shared pointers), twice on the same value and once on an equal twin, with deep snapshots of environment, sample environment and program around every run; distinct_nontrivial = successfully compiled (source, option set) pairs + distinct (program, environment) pairs run"
 	rep.write()
 }
